@@ -471,7 +471,7 @@ _DW = {}
 def _direct_conn_writes(F, fn):
     """(Connection fields stored to / mutably borrowed / receiving a call result in fn and its closures,
         workspace callees fn forwards a `&mut Connection` to, markers for unknown callees receiving one)"""
-    k = (id(F), fn.id)
+    k = (F.uid, fn.id)
     if k in _DW:
         return _DW[k]
     fields, fwd, unknown = set(), [], set()
